@@ -149,7 +149,7 @@ class Ctx:
             cov['discharged'] = self.discharged
         else:   # schema: a proof-level `discharged` must be >= 1; a broken run reports the count separately
             cov['discharged_count'] = 0
-        cov['checker_cmd'] = 'cd /verif/coq && make (coqc 8.16.1, full .vo build) && coqc Props/%s.v (Print Assumptions)' % self.pid
+        cov['checker_cmd'] = 'cd /verif/coq && make (coqc 8.16.1, full .vo build) && coqc Props/%s.v [+ Props/%s<a-z>.v] (Print Assumptions)' % (self.pid, self.pid)
         cov['trusted_base'] = TRUSTED_BASE
         cov['axioms_reported_by_Print_Assumptions'] = self.axioms
         cov['broken_obligations_or_ties'] = self.broken
@@ -272,19 +272,29 @@ def source_audit():
     return bad
 
 
-def props_audit(pid, timeout=600):
-    """Compile Props/<pid>.v alone and read Print Assumptions output."""
-    with Lock():
-        rc, out = sh('coqc -Q . SV Props/%s.v' % pid, timeout=timeout, cwd=COQ)
-    src = open(os.path.join(COQ, 'Props', pid + '.v')).read()
-    src_nc = re.sub(r'\(\*.*?\*\)', '', src, flags=re.S)
-    thms = re.findall(r'^\s*(?:Theorem|Lemma|Corollary)\s+(\w+)', src_nc, flags=re.M)
-    prints = re.findall(r'Print Assumptions\s+(\w+)', src_nc)
-    closed = out.count('Closed under the global context')
-    axioms = []
-    for m in re.finditer(r'Axioms:\s*\n((?:.+\n?)+?)(?=\n\S|\Z)', out):
-        axioms.append(m.group(1).strip())
-    return {'rc': rc, 'theorems': thms, 'printed': prints, 'closed': closed, 'axioms': axioms, 'log': out}
+def props_audit(pid, timeout=900):
+    """Compile Props/<pid>.v and any continuation files Props/<pid>[a-z].v alone and read the
+    Print Assumptions output."""
+    files = sorted(f for f in glob.glob(os.path.join(COQ, 'Props', pid + '*.v'))
+                   if re.fullmatch(re.escape(pid) + r'[a-z]?\.v', os.path.basename(f)))
+    rc_all, thms, prints, closed, axioms, logs = 0, [], [], 0, [], ''
+    for f in files:
+        rel = os.path.relpath(f, COQ)
+        with Lock():
+            rc, out = sh('coqc -Q . SV %s' % rel, timeout=timeout, cwd=COQ)
+        src_nc = re.sub(r'\(\*.*?\*\)', '', open(f).read(), flags=re.S)
+        thms += re.findall(r'^\s*(?:Theorem|Lemma|Corollary)\s+(\w+)', src_nc, flags=re.M)
+        prints += re.findall(r'Print Assumptions\s+(\w+)', src_nc)
+        closed += out.count('Closed under the global context')
+        for m in re.finditer(r'Axioms:\s*\n((?:.+\n?)+?)(?=\n\S|\Z)', out):
+            axioms.append(m.group(1).strip())
+        rc_all = rc_all or rc
+        logs += out
+    if not files:
+        rc_all = 1
+        logs = 'no Props/%s.v' % pid
+    return {'rc': rc_all, 'theorems': thms, 'printed': prints, 'closed': closed, 'axioms': axioms, 'log': logs,
+            'files': [os.path.relpath(f, COQ) for f in files]}
 
 
 def standard_proof_phase(ctx, gen_files_used=()):
